@@ -102,11 +102,12 @@ type FaultProfile struct {
 	Rows    int
 	Budgets int // number of byte budgets tried (0: all)
 	Repeat  int // extra failing attempts at random positions (leak drift)
+	Tail    int // commits made while each snapshot is between its last block and detaching the recorder
 }
 
 func FaultProfileFor(name string, seed int64) FaultProfile {
 	r := rand.New(rand.NewSource(seed ^ 0xfa17))
-	p := FaultProfile{Name: name, Blocks: r.Intn(3), Rows: 3 + r.Intn(4), Budgets: 12, Repeat: 20}
+	p := FaultProfile{Name: name, Blocks: r.Intn(3), Rows: 3 + r.Intn(4), Budgets: 12, Repeat: 20, Tail: r.Intn(3)}
 	if name == "c14t" {
 		p.Budgets, p.Repeat = 0, 300
 	}
@@ -146,6 +147,22 @@ func RunFault(seed int64, p FaultProfile) (out []Ev) {
 		}
 	}
 	live := P.Dump(1)
+	// commits made beside every snapshot (from inside its snap.closing point): they are recorded and copied
+	// behind the state, so that the copy phase writes to the destination too
+	base := verifHook()
+	tailing := false
+	setVerifHook(func(point string, chunk uint32) {
+		base(point, chunk)
+		if point == "snap.closing" && !tailing {
+			tailing = true
+			for i := 0; i < p.Tail; i++ {
+				w.T.SetCur("w")
+				P.Txn("w", func(x *Tx) error { x.Insert([]W{{"a", "put", i}}, false); return nil })
+				w.T.SetCur("m")
+			}
+			tailing = false
+		}
+	})
 	// a healthy warm-up snapshot through a counting writer: how many calls and bytes there are
 	count := &FaultyWriter{AtCall: -1, Budget: -1}
 	if P.Snapshot("m", "warm", count) != nil {
